@@ -1,12 +1,14 @@
 # ConfigText.tla <-> internal/config  (C35 redaction, C37 variable expansion)
 import os
-import vf
+import vf, _partlc
 
 HFILES = ["common/common_test.go.tmpl", "config/redact_test.go"]
 COPY_BREAKING = {"leadnl"}       # ConfigText.tla CopyBreaking
 INVS = {"redact": "RedactNoSecret RedactOrigUnchanged RedactOthersKept", "expand": "ExpandOK"}
-DEVS = {"redact": {"DevFailOpenCopy": "RedactNoSecret", "DevShallowCopy": "RedactOrigUnchanged"},
-        "expand": {"DevReexpand": "ExpandOK", "DevUnsetToEmpty": "ExpandOK"}}
+DEVS = {"redact": {"DevFailOpenCopy": "RedactNoSecret", "DevShallowCopy": "RedactOrigUnchanged",
+                   "DevSkipRefShaped": "RedactNoSecret"},
+        "expand": {"DevReexpand": "ExpandOK", "DevUnsetToEmpty": "ExpandOK", "DevDefaultWhenEmpty": "ExpandOK"}}
+REF_SHAPED = {"dollarname", "braceref", "bracedef", "bracewild", "regexmatch"}   # ConfigText.tla RefShaped
 
 
 def cfg(part, dev=(), emit=True, wide=False):
@@ -18,8 +20,10 @@ def cfg(part, dev=(), emit=True, wide=False):
 def model(ctx, part):
     """ideal spec holds on the whole enumerated domain; each deviation of this part is caught"""
     wide = not ctx.quick()
-    ideal = ctx.tlc("ConfigText", "MC.cfg", files={"MC.cfg": cfg(part, wide=wide)}, name="configtext-" + part,
-                    timeout=3000, heap="8g")
+    jobs = [{"name": "ideal-" + part, "cfg": cfg(part, wide=wide), "workers": 4, "heap": "8g"}]
+    jobs += [{"name": d, "cfg": cfg(part, dev=[d], emit=False)} for d in DEVS[part]]
+    res = _partlc.run(ctx, "ConfigText", jobs)
+    ideal = res["ideal-" + part]
     if ideal.violated:
         raise vf.Infra("ideal ConfigText spec (%s) violates %s (specification error)" % (part, ideal.violated))
     vecs = [o for t, o in ideal.prints if t == "VEC"]
@@ -27,11 +31,9 @@ def model(ctx, part):
         raise vf.Infra("TLC emitted no vectors")
     caught = {}
     for d, inv in DEVS[part].items():
-        r = ctx.tlc("ConfigText", "MCdev.cfg", files={"MCdev.cfg": cfg(part, dev=[d], emit=False)},
-                    expect_violation=True, name="configtext-" + d)
-        caught[d] = r.violated
-        if r.violated != inv:
-            raise vf.Infra("deviation %s not detected by %s (got %s): vacuous model" % (d, inv, r.violated))
+        caught[d] = res[d].violated
+        if res[d].violated != inv:
+            raise vf.Infra("deviation %s not detected by %s (got %s): vacuous model" % (d, inv, res[d].violated))
     return ideal, vecs, caught
 
 
